@@ -63,7 +63,7 @@ fn index_provenance(cx: &mut Ctx, src: &sm::Src) {
     let rule = "C18.N2";
     cx.rule(rule, "index provenance: every byte index used for truncation / slicing / split_at / insert derives from char_indices(), find(), len() or an ASCII-digit count of the SAME string; the string precision counts characters and is applied before padding; widths are bounded to i32 at parse time");
     cx.floor(rule, 6);
-    let t = sm::tsc(&src.file);
+    let t = sm::tsx(&src.file);
     let checks: [(&str, &str, &str); 7] = [
         ("string-precision", "lettruncated=self.precision.and_then(|precision|{let(index,_)=s.char_indices().nth(precision)?;Some(TruncatedStr{inner:&s[..index],char_len:precision,})});", "format_string cuts at the byte index of the precision-th character (char_indices().nth) and announces `precision` characters"),
         ("no-truncate", "", "no String::truncate with a spec-supplied index"),
@@ -161,7 +161,7 @@ fn type_tables(cx: &mut Ctx, src: &sm::Src) {
         cx.fail(rule, &format!("{}/sizes", rule), &src.rel, &format!("{} parse entries vs {} print entries", parse_tab.len(), char_tab.len()));
     }
     // conversion / align / sign / grouping tables
-    let t = sm::tsc(&src.file);
+    let t = sm::tsx(&src.file);
     let small = [
         ("align", "'<'=>Some(FormatAlign::Left),'>'=>Some(FormatAlign::Right),'='=>Some(FormatAlign::AfterSign),'^'=>Some(FormatAlign::Center),_=>None,"),
         ("sign", "Some('-')=>(Some(Self::Minus),chars.as_str()),Some('+')=>(Some(Self::Plus),chars.as_str()),Some(' ')=>(Some(Self::MinusOrSpace),chars.as_str()),_=>(None,text),"),
@@ -204,7 +204,7 @@ fn parse_order(cx: &mut Ctx, src: &sm::Src) {
     } else {
         cx.fail(rule, &format!("{}/order", rule), &src.loc(m), &format!("FormatSpec::parse reads its fields in the order {:?}", order));
     }
-    let t = sm::tsc(&m.block);
+    let t = sm::tsx(&m.block);
     if t.contains("if!text.is_empty(){returnErr(FormatSpecError::InvalidFormatSpecifier);}") {
         cx.ok(rule, "trailing text is rejected");
     } else {
@@ -228,7 +228,7 @@ fn align_order(cx: &mut Ctx, src: &sm::Src) {
     cx.rule(rule, "format_sign_and_align: per alignment the concatenation order of fill, sign and magnitude is the reference's (<: sign mag fill; >: fill sign mag; =: sign fill mag; ^: floor(fill/2) sign mag rest), and the fill count is max(0, width - chars - sign length) with chars = char_len() of the value");
     cx.floor(rule, 5);
     let Some(m) = src.method("FormatSpec", "format_sign_and_align") else { return cx.anchor_missing(rule, "format_sign_and_align") };
-    let t = sm::tsc(&m.block);
+    let t = sm::tsx(&m.block);
     let arms = [
         ("Left", "FormatAlign::Left=>format!(\"{}{}{}\",sign_str,magnitude_str,FormatSpec::compute_fill_string(fill_char,fill_chars_needed)),"),
         ("Right", "FormatAlign::Right=>format!(\"{}{}{}\",FormatSpec::compute_fill_string(fill_char,fill_chars_needed),sign_str,magnitude_str),"),
@@ -248,7 +248,7 @@ fn align_order(cx: &mut Ctx, src: &sm::Src) {
         cx.fail(rule, &format!("{}/fill-count", rule), &src.loc(m), "the fill count is not max(0, width - char_len() - sign length)");
     }
     // TruncatedStr announces the number of characters it holds
-    let ft = sm::tsc(&src.file);
+    let ft = sm::tsx(&src.file);
     if ft.contains("implCharLenforTruncatedStr<'_>{fnchar_len(&self)->usize{self.char_len}}") && ft.contains("implCharLenforAsciiStr<'_>{fnchar_len(&self)->usize{self.inner.len()}}") {
         cx.ok(rule, "CharLen impls: TruncatedStr = kept characters, AsciiStr = byte length");
     } else {
